@@ -64,6 +64,7 @@ func runC09(c *ShardCtx) {
 					rb := opt.Run(in, &o2, nil)
 					ref := peg.Run(g, in, nil, core.RefOptions(&o1, plain.Flags))
 					c.Res.Evaluations++
+					c.ConfSample(40009, 2, text, core.Gen{OptGrammar: true, AltEntry: alt}, opt, in, o2, nil, rb)
 					if ref.Outcome != peg.OResult {
 						c.Res.Skipped++
 						continue
